@@ -1,9 +1,13 @@
 """C03 — template expansion always terminates with a string, whatever templates contain.
-Proof: coq/C03 (budgeted flatten model: total, TemplateRecursion never escapes the top level, nesting bounded by
-the recursion limit; generated dispatch table Gen_magics.v: every registered magic accepts the resolver's call;
-pad* output bounds).  Tie: extracted flatten model vs Expander on exhaustively enumerated small universes (cycles,
-missing templates, unbalanced braces).  Search: every registered name x 0..3 args x 9 argument shapes under a CPU and
-output-size limit proportional to the input."""
+Proof: coq/C03 (budgeted flatten model with LAZY magic strategies `mreq`/`run_magic`: total, TemplateRecursion never escapes
+the top level and passes through magic calls and sequences unchanged (ProofsLazy.v), nesting bounded by the recursion limit,
+256 KiB caps incl. the named-argument cap; abstract cost theorem Cost.v: linear in the limit with the discipline, 3*2^b-2 when
+swallowed; generated Gen_magics.v: every registered magic accepts the resolver's call, PADLEFT/PADRIGHT bodies pinned (cap =
+source cap), exception-propagation discipline of MagicResolver.__call__ and of every magic's argument fetches; pad*/titleparts
+output bounds).  Tie: extracted flatten model vs Expander on exhaustively enumerated small universes (cycles, missing templates,
+unbalanced braces) and on cyclic universes recursing twice inside lazily fetched magic arguments (OCaml strategies for
+#ifexpr/lc/padleft/#iferror).  Search: every registered name x 0..3 args x 9 argument shapes, the full numeric grammar at every
+argument position, the recursion family under a dispatch budget, all under CPU and output-size limits proportional to the input."""
 import json
 
 from vt import core
